@@ -770,6 +770,15 @@ class ThreadsStream(Stream):
         return out
 
     def impl(self, case):
+        # a heavily loaded machine can starve the two threads; only a schedule that cannot be followed three times
+        # in a row, with a generous deadline, is reported as stuck
+        for attempt in range(3):
+            obs = self._impl_once(case, 60 * (attempt + 1))
+            if not obs["stuck"]:
+                break
+        return obs
+
+    def _impl_once(self, case, patience):
         import threading
 
         from liquid import Environment
@@ -818,7 +827,7 @@ class ThreadsStream(Stream):
         # wait until the schedule is exhausted (or everybody returned), then read the cache and release the rest
         import time
 
-        deadline = time.time() + 20
+        deadline = time.time() + patience
         with sched.cv:
             while sched.pos < len(sched.schedule) and not all(sched.finished) and time.time() < deadline:
                 sched.cv.wait(0.05)
